@@ -144,6 +144,11 @@ class StrV(V):  # only constants
     s: str
 
 
+@dataclass
+class LambdaV(V):  # a lambda expression, only ever handed to an extern contract that inspects its source
+    node: object
+
+
 def const_bytes(data: bytes) -> BytesV:
     def at(i, data=data):
         e = z3.IntVal(0)
@@ -673,6 +678,9 @@ class Engine:
         b = self.ev_guarded(n.orelse, st, z3.Not(c))
         return self.merge(c, a, b, n)
 
+    def ev_Lambda(self, n, st):
+        return LambdaV(n)
+
     def ev_Tuple(self, n, st):
         return TupleV([self.ev(e, st) for e in n.elts])
 
@@ -899,8 +907,8 @@ class Engine:
             base = self.ev(tgt.value, st)
             if not isinstance(base, ObjV):
                 raise Unsupported(f"attribute store on {type(base).__name__}@{node.lineno}")
-            self.model.on_attr_store(self, st, base.path, tgt.attr, v, node)
-            st.attrs[f"{base.path}.{tgt.attr}"] = v
+            if self.model.on_attr_store(self, st, base.path, tgt.attr, v, node) != "skip":
+                st.attrs[f"{base.path}.{tgt.attr}"] = v
         else:
             raise Unsupported(f"assign target {ast.unparse(tgt)}@{node.lineno}")
 
